@@ -461,7 +461,7 @@ fn base_strategy() -> impl Strategy<Value = (AigOwned, Vec<u32>)> {
         0usize..=3,
         0usize..=10,
         proptest::collection::vec(any::<u32>(), 120),
-        (0usize..=3, 0usize..=2, 0usize..=2, 0usize..=2, 0usize..=2),
+        (0usize..=3, 0usize..=2, 0usize..=2, prop_oneof![3 => 0usize..=2, 1 => 3usize..=4], 0usize..=2),
         0u64..6,
     )
         .prop_map(|(ni, nl, ng, picks, (no, nb, nc, nj, nf), gap)| {
@@ -632,7 +632,7 @@ fn inject(mut a: AigOwned, defect: u8, picks: &[u32]) -> (AigOwned, String) {
         }
         _ => {
             // double definition
-            let kind = pick(8);
+            let kind = pick(10);
             let some_input = a.inputs.first().copied();
             let some_gate = a.ands.first().map(|g| g.0.unwrap());
             let some_latch = a.latches.first().map(|l| l.0.unwrap());
@@ -649,8 +649,11 @@ fn inject(mut a: AigOwned, defect: u8, picks: &[u32]) -> (AigOwned, String) {
                 6 => a.inputs.push(pick(2)),
                 7 if some_gate.is_some() => a.latches.push((some_gate.map(|g| g ^ c), 1, None)),
                 _ => {
-                    if let Some(i) = some_input {
-                        a.latches.push((Some(i), 0, Some(false)));
+                    if pick(2) == 0 {
+                        // a latch whose state literal is a constant
+                        a.latches.push((Some(pick(2)), 0, Some(false)));
+                    } else if let Some(i) = some_input {
+                        a.latches.push((Some(i ^ c), 0, Some(false)));
                     } else {
                         a.inputs.push(0);
                     }
